@@ -1,3 +1,460 @@
+// Scenario generation, parallel execution (one real executor process per scenario), printing of
+// (input, observed) pairs as Coq terms, replay.
 package main
 
-func harnessMain() {}
+import (
+	"encoding/json"
+	"fmt"
+	"os"
+	"path/filepath"
+	"strings"
+	"sync"
+	"time"
+
+	"verif/harness/internal/gen"
+)
+
+// ---------- Coq terms ----------
+
+func behTerm(b Beh) string {
+	death := fmt.Sprintf("(DExit %d)", b.Exit)
+	if b.SelfSig {
+		death = "DSig"
+	}
+	eod := "None"
+	if b.ExitOnDone >= 0 {
+		eod = fmt.Sprintf("(Some %d)", b.ExitOnDone)
+	}
+	return fmt.Sprintf("(mkBeh %s %s %s %s %s %s)", death, gen.Bool(b.Ign), gen.Bool(b.Fork),
+		gen.Bool(!b.TransFail), eod, gen.Bool(b.BadStart))
+}
+
+var hactTerm = map[string]string{
+	"launch": "HLaunch", "timer": "HTimer", "conf": "HReq RConf", "start": "HReq RStart",
+	"stop": "HReq RStop", "reset": "HReq RReset", "trigger": "HReq RTrigger", "exit": "HExit",
+	"kill": "HKill", "settle": "HSettle", "listen": "HListen", "ready": "HReady",
+}
+
+var reqTerm = map[string]string{"conf": "RConf", "start": "RStart", "stop": "RStop", "reset": "RReset", "trigger": "RTrigger"}
+
+func statusTerm(s string) string {
+	switch s {
+	case "TASK_RUNNING":
+		return "RUNNING"
+	case "TASK_FINISHED":
+		return "FINISHED"
+	case "TASK_FAILED":
+		return "FAILED"
+	case "TASK_KILLED":
+		return "KILLED"
+	}
+	return "OTHERST"
+}
+
+func kindTerm(k string) string {
+	switch k {
+	case "basic":
+		return "KBasic"
+	case "hook":
+		return "KHook"
+	}
+	return "KCtl"
+}
+
+func caseTerm(sc Scenario, o Observation) string {
+	var sched, sts, evs, resps, sigs []string
+	for _, a := range sc.Sched {
+		sched = append(sched, hactTerm[a])
+	}
+	for _, s := range o.Statuses {
+		sts = append(sts, statusTerm(s))
+	}
+	for _, e := range o.Events {
+		if e.EvType == 2 {
+			evs = append(evs, fmt.Sprintf("(%s, %s, %s)", gen.Bool(e.Voluntary), gen.Z(int64(e.ExitCode)), statusTerm(e.Final)))
+		} else { // a device event the modelled code never forwards in these scenarios
+			evs = append(evs, fmt.Sprintf("(false, %s, OTHERST)", gen.Z(int64(-1000-e.EvType))))
+		}
+	}
+	for _, r := range o.Resps {
+		a := "None"
+		if r.Answered {
+			a = "(Some " + gen.Bool(r.Ok) + ")"
+		}
+		resps = append(resps, fmt.Sprintf("(%s, %s)", reqTerm[r.Req], a))
+	}
+	for _, s := range o.Signals {
+		switch s {
+		case "TERM":
+			sigs = append(sigs, "TERM")
+		case "INT":
+			sigs = append(sigs, "INT")
+		default:
+			sigs = append(sigs, "KILL9")
+		}
+	}
+	killMs := "None"
+	if o.KillMs >= 0 {
+		killMs = fmt.Sprintf("(Some %d)", o.KillMs)
+	}
+	mobs := fmt.Sprintf("(mkMobs %s %d %s %s %d %s %d %s %s %s)", gen.List(sts), o.BeforeKill, gen.List(evs),
+		gen.List(resps), o.PidMsgs, gen.List(sigs), o.Resubs, gen.Bool(o.Crashed), gen.Bool(o.MainAlive), gen.Bool(o.GcAlive))
+	return fmt.Sprintf("mkCase %s %s %s %s %s", kindTerm(sc.Kind), behTerm(sc.Beh), gen.List(sched), mobs, killMs)
+}
+
+// ---------- generators ----------
+
+func sch(s string) []string { return strings.Fields(s) }
+
+// corpus: the witnesses of the refutation theorems and the schedules of the non-vacuity examples
+// (props/C17.v); they always run first.
+func corpus() []Scenario {
+	nb := Beh{ExitOnDone: -1}
+	return []Scenario{
+		{Kind: "basic", Beh: nb, Sched: sch("launch timer conf start stop reset kill")},           // normal life
+		{Kind: "basic", Beh: nb, Sched: sch("launch timer start kill")},                          // C17-b
+		{Kind: "hook", Beh: nb, Sched: sch("launch timer trigger kill")},                         // C17-b (hook)
+		{Kind: "basic", Beh: nb, Sched: sch("launch kill timer")},                                // C17-c
+		{Kind: "basic", Beh: Beh{SelfSig: true, ExitOnDone: -1}, Sched: sch("launch timer start exit stop stop")},             // C17-d
+		{Kind: "basic", Beh: Beh{SelfSig: true, ExitOnDone: -1}, Sched: sch("launch timer start exit stop start stop kill")}, // C17-d, child left running
+		{Kind: "basic", Beh: Beh{Fork: true, ExitOnDone: -1}, Sched: sch("launch timer start exit stop")},                     // C17-h
+		{Kind: "basic", Beh: Beh{Fork: true, ExitOnDone: -1}, Sched: sch("launch timer start stop")},                          // group kill works
+		{Kind: "ctl", Beh: nb, Sched: sch("launch kill settle")},                                 // C17-e (dial)
+		{Kind: "ctl", Beh: nb, Sched: sch("launch listen kill settle")},                          // C17-e (poll)
+		{Kind: "ctl", Beh: Beh{Ign: true, ExitOnDone: -1}, Sched: sch("launch listen ready kill kill settle")}, // C17-f
+		{Kind: "ctl", Beh: Beh{Fork: true, ExitOnDone: -1}, Sched: sch("launch listen ready kill settle")},     // C17-g
+		{Kind: "ctl", Beh: Beh{Ign: true, ExitOnDone: -1}, Sched: sch("launch listen ready conf start kill settle")}, // full escalation
+		{Kind: "ctl", Beh: Beh{ExitOnDone: 0}, Sched: sch("launch listen ready kill settle")},    // leaves on DONE
+		{Kind: "ctl", Beh: Beh{TransFail: true, ExitOnDone: -1}, Sched: sch("launch listen ready conf kill settle")}, // KILLED
+		{Kind: "ctl", Beh: Beh{Exit: 4, ExitOnDone: -1}, Sched: sch("launch listen ready exit kill settle conf")},    // gone before KILL
+	}
+}
+
+func genBeh(r *gen.Rand, kind string) Beh {
+	b := Beh{ExitOnDone: -1}
+	switch r.Intn(4) {
+	case 0:
+		b.Exit = 0
+	case 1:
+		b.Exit = 1 + 2*r.Intn(2)
+	case 2:
+		b.Exit = 0
+		b.SelfSig = kind != "ctl" && r.Chance(1, 2)
+	case 3:
+		b.Exit = r.Intn(3)
+	}
+	b.Ign = r.Chance(1, 3)
+	b.Fork = r.Chance(1, 4)
+	if kind == "ctl" {
+		b.TransFail = r.Chance(1, 5)
+		switch r.Intn(4) {
+		case 0:
+			b.ExitOnDone = 0
+		case 1:
+			b.ExitOnDone = 2
+		}
+		b.BadStart = r.Chance(1, 10)
+	}
+	return b
+}
+
+var basicShapes = []string{
+	"launch timer conf start stop reset kill",
+	"launch timer start exit stop kill",
+	"launch timer start kill",
+	"launch kill timer",
+	"launch timer kill stop kill",
+	"launch timer stop start stop start stop kill",
+	"launch timer start exit stop stop",
+	"launch timer start exit stop start stop kill",
+	"launch timer start start stop kill",
+	"launch timer trigger start stop",
+	"launch timer start stop stop stop",
+	"launch timer start stop exit start exit reset kill kill",
+	"launch timer conf start exit start exit stop",
+	"launch kill timer start",
+}
+
+var hookShapes = []string{
+	"launch timer trigger exit kill",
+	"launch timer trigger kill",
+	"launch kill timer",
+	"launch timer start stop conf trigger stop exit trigger exit kill",
+	"launch timer kill trigger",
+	"launch timer trigger stop kill kill",
+	"launch timer conf kill",
+}
+
+var ctlShapes = []string{
+	"launch listen ready conf start kill settle",
+	"launch listen ready kill settle",
+	"launch kill settle",
+	"launch listen kill settle",
+	"launch listen ready kill kill settle",
+	"launch listen ready exit kill settle conf",
+	"launch listen ready conf kill conf settle",
+	"launch listen ready kill exit settle",
+	"launch listen ready kill settle kill",
+	"launch conf listen conf ready conf start stop reset kill settle",
+	"launch listen ready conf start exit",
+	"launch listen ready settle kill settle",
+}
+
+// randomSched: a random but realisable schedule (see the restrictions in the comments).
+func randomSched(r *gen.Rand, kind string, b Beh) []string {
+	switch kind {
+	case "basic", "hook":
+		out := []string{"launch"}
+		if r.Chance(1, 8) {
+			out = append(out, "kill", "timer") // KILL before the 200 ms timer: only right after launch
+		} else {
+			out = append(out, "timer")
+		}
+		starter := "start"
+		if kind == "hook" {
+			starter = "trigger"
+		}
+		running := 0 // children that would all leave on "exit": at most one, so that event order is defined
+		cur := false
+		killed := len(out) == 3
+		n := r.Range(2, 8)
+		for i := 0; i < n; i++ {
+			var alpha []string
+			if kind == "basic" {
+				alpha = []string{"conf", "start", "start", "stop", "stop", "reset", "trigger", "exit", "kill"}
+			} else {
+				alpha = []string{"conf", "start", "stop", "trigger", "trigger", "exit", "exit", "kill"}
+			}
+			a := r.Pick(alpha)
+			switch a {
+			case starter:
+				if killed {
+					break
+				}
+				if cur && running >= 1 && r.Chance(3, 4) {
+					continue // avoid orphans most of the time
+				}
+				if !cur || kind == "hook" {
+					running++
+				} else {
+					running++ // orphan stays
+				}
+				cur = true
+			case "stop":
+				if kind == "basic" && !killed && cur {
+					if b.SelfSig {
+						// after a death by signal a STOP may block: keep the book-keeping exact by
+						// ending the random part here
+						out = append(out, a)
+						return out
+					}
+					running--
+					cur = false
+				}
+			case "exit":
+				if running > 1 {
+					continue
+				}
+				running = 0
+				cur = false
+			case "kill":
+				killed = true
+			}
+			out = append(out, a)
+		}
+		return out
+	default:
+		out := []string{"launch"}
+		switch r.Intn(10) {
+		case 0:
+			return append(out, "kill", "settle")
+		case 1:
+			return append(out, "conf", "listen", "kill", "settle")
+		}
+		if r.Chance(1, 4) {
+			out = append(out, "conf")
+		}
+		out = append(out, "listen")
+		if r.Chance(1, 4) {
+			out = append(out, "conf")
+		}
+		out = append(out, "ready")
+		if b.BadStart {
+			return append(out, "kill", "settle")
+		}
+		// valid requests only: the stub checks the source state
+		next := map[string]string{"STANDBY": "conf", "CONFIGURED": "start", "RUNNING": "stop"}
+		dst := map[string]string{"conf": "CONFIGURED", "start": "RUNNING", "stop": "CONFIGURED", "reset": "STANDBY"}
+		st := "STANDBY"
+		for i := r.Intn(4); i > 0; i-- {
+			a := next[st]
+			if st == "CONFIGURED" && r.Chance(1, 3) {
+				a = "reset"
+			}
+			out = append(out, a)
+			if !b.TransFail {
+				st = dst[a]
+			}
+		}
+		switch r.Intn(8) {
+		case 0:
+			out = append(out, "exit", "kill", "settle")
+		case 1:
+			out = append(out, "kill", "kill", "settle")
+		case 2:
+			out = append(out, "kill", next[st], "settle")
+		case 3:
+			out = append(out, "kill", "exit", "settle")
+		case 4:
+			out = append(out, "kill", "settle", "kill")
+		case 5:
+			out = append(out, "exit")
+		default:
+			out = append(out, "kill", "settle")
+		}
+		return out
+	}
+}
+
+func generate(o gen.Opts) []Scenario {
+	r := gen.NewRand(o.Seed)
+	rShape, rRand := r.Fork(), r.Fork()
+	var out []Scenario
+	kinds := []string{"basic", "hook", "ctl", "basic", "ctl"}
+	for i := 0; i < o.N; i++ {
+		kind := kinds[i%len(kinds)]
+		if i%5 < 3 || o.Tier != "thorough" && i%5 == 3 { // fixed shapes, behaviour varied
+			b := genBeh(rShape, kind)
+			var shapes []string
+			switch kind {
+			case "basic":
+				shapes = basicShapes
+			case "hook":
+				shapes = hookShapes
+			default:
+				shapes = ctlShapes
+			}
+			s := shapes[(i/len(kinds)+rShape.Intn(2))%len(shapes)]
+			if kind == "ctl" && b.BadStart && strings.Contains(s, "ready conf") {
+				b.BadStart = false
+			}
+			out = append(out, Scenario{Kind: kind, Beh: b, Sched: sch(s)})
+		} else {
+			b := genBeh(rRand, kind)
+			out = append(out, Scenario{Kind: kind, Beh: b, Sched: randomSched(rRand, kind, b)})
+		}
+	}
+	return out
+}
+
+// ---------- main ----------
+
+func harnessMain() {
+	o := gen.ParseFlags()
+	var scs []Scenario
+	if o.Replay != "" {
+		ins, _, err := gen.LoadReplay(o.Replay)
+		if err != nil {
+			panic(err)
+		}
+		for _, raw := range ins {
+			var sc Scenario
+			if err := json.Unmarshal(raw, &sc); err != nil {
+				panic(err)
+			}
+			scs = append(scs, sc)
+		}
+	} else {
+		scs = append(corpus(), generate(o)...)
+	}
+	root := filepath.Join(buildDir(), "c17", fmt.Sprintf("run-%d", os.Getpid()))
+	os.RemoveAll(root)
+	os.MkdirAll(root, 0o755)
+	obs := make([]Observation, len(scs))
+	par := 20
+	if v := os.Getenv("C17_PAR"); v != "" {
+		fmt.Sscanf(v, "%d", &par)
+	}
+	sem := make(chan struct{}, par)
+	var wg sync.WaitGroup
+	t0 := time.Now()
+	for i := range scs {
+		wg.Add(1)
+		sem <- struct{}{}
+		go func(i int) {
+			defer wg.Done()
+			defer func() { <-sem }()
+			dir := filepath.Join(root, fmt.Sprintf("s%04d", i))
+			obs[i] = runScenario(scs[i], dir, false)
+			if !obs[i].Crashed && len(obs[i].Unrealised) == 0 && os.Getenv("C17_KEEP") == "" {
+				os.RemoveAll(dir)
+			}
+		}(i)
+	}
+	wg.Wait()
+	var cases []gen.Case
+	unrealised := 0
+	for i, sc := range scs {
+		if len(obs[i].Unrealised) > 0 && !obs[i].Crashed && o.Replay == "" {
+			// the intended order of a timing-dependent step could not be realised on this run
+			// (e.g. KILL within the 200 ms before the RUNNING timer on a loaded machine)
+			unrealised++
+			continue
+		}
+		ob := obs[i]
+		ob.PanicText = ""
+		cases = append(cases, gen.Case{Term: caseTerm(sc, obs[i]), Kind: sc.Kind + ":" + shapeLabel(sc), Input: sc, Obs: ob})
+	}
+	extra := map[string]any{"scenarios": len(scs), "unrealised_dropped": unrealised,
+		"wall_s": int(time.Since(t0).Seconds()), "parallel": par}
+	if unrealised*5 > len(scs) {
+		fmt.Fprintf(os.Stderr, "h17: %d of %d scenarios could not be realised (machine too loaded?)\n", unrealised, len(scs))
+		os.Exit(3)
+	}
+	if err := gen.WriteCases(o, "C17", "From Verif Require Import Common ExecTask.", "c17_case", "report17", cases, extra); err != nil {
+		panic(err)
+	}
+	if os.Getenv("C17_KEEP") == "" {
+		os.Remove(root) // only when empty
+	}
+}
+
+// shapeLabel: the request pattern, for the input distribution
+func shapeLabel(sc Scenario) string {
+	var b strings.Builder
+	killed, ready := false, false
+	for _, a := range sc.Sched {
+		switch a {
+		case "ready":
+			ready = true
+		case "kill":
+			if !killed {
+				killed = true
+				switch {
+				case sc.Kind == "ctl" && !ready:
+					b.WriteString("kill-before-ready ")
+				default:
+					b.WriteString("kill ")
+				}
+			} else {
+				b.WriteString("kill-again ")
+			}
+		case "exit":
+			if killed {
+				b.WriteString("exit-after-kill ")
+			} else {
+				b.WriteString("exit ")
+			}
+		case "stop":
+			b.WriteString("stop ")
+		}
+	}
+	s := strings.TrimSpace(b.String())
+	if s == "" {
+		s = "no-stop-kill"
+	}
+	if len(s) > 40 {
+		s = s[:40]
+	}
+	return s
+}
